@@ -115,11 +115,12 @@ def expectSeq : List (Tok × Str) → List Tok
   | [(t, sep)] => t :: sepEnd sep
   | (t, sep) :: l => t :: (sepMid sep ++ expectSeq l)
 
-/-- an item of the round trip: a well-formed token and the non-empty whitespace that follows it -/
+/-- an item of the round trip: a well-formed token and the separator that follows it — a whitespace
+    character, then any whitespace characters and line continuations -/
 structure ItemWF (p : Tok × Str) : Prop where
   tok : TokWF p.1
-  sepNe : p.2 ≠ []
-  sepWs : ∀ c ∈ p.2, IsWs c
+  sep : SepWF p.2
+  first : IsWs (hd p.2)
   nl : NeedsNewline p.1 → hd p.2 = '\n'
 
 theorem printSeq_noNul {l : List (Tok × Str)} (h : ∀ p ∈ l, ItemWF p) : NoNul (printSeq l) := by
@@ -129,7 +130,7 @@ theorem printSeq_noNul {l : List (Tok × Str)} (h : ∀ p ∈ l, ItemWF p) : NoN
     obtain ⟨t, sep⟩ := p
     have hp := h (t, sep) (by simp)
     exact noNul_append (printTok_noNul hp.tok).1
-      (noNul_append (noNul_ws hp.sepWs) (ih (fun q hq => h q (by simp [hq]))))
+      (noNul_append (noNul_sep hp.sep) (ih (fun q hq => h q (by simp [hq]))))
 
 theorem roundtrip_tk {l : List (Tok × Str)} (h : ∀ p ∈ l, ItemWF p) (e : Nat) (a : List Tok) :
     tk (printSeq l) e a = .ok ⟨a.reverse ++ expectSeq l, e⟩ := by
@@ -141,9 +142,11 @@ theorem roundtrip_tk {l : List (Tok × Str)} (h : ∀ p ∈ l, ItemWF p) (e : Na
     have hl : ∀ q ∈ l, ItemWF q := fun q hq => h q (by simp [hq])
     obtain ⟨c, sep', rfl⟩ : ∃ c sep', sep = c :: sep' := by
       cases sep with
-      | nil => exact absurd rfl hp.sepNe
+      | nil =>
+        have hf : IsWs NUL := by simpa using hp.first
+        exact absurd hf (by decide)
       | cons c s => exact ⟨c, s, rfl⟩
-    have hc : IsWs c := hp.sepWs c (by simp)
+    have hc : IsWs c := by simpa using hp.first
     have hnl : NeedsNewline t → c = '\n' := fun hn => by simpa using hp.nl hn
     have hnAll := printSeq_noNul h
     have hg := getToken_tok hp.tok hc hnl (sep' ++ printSeq l)
@@ -152,7 +155,7 @@ theorem roundtrip_tk {l : List (Tok × Str)} (h : ∀ p ∈ l, ItemWF p) (e : Na
     rw [tk_step hnAll (by simp) hg, Nat.add_zero]
     cases l with
     | nil =>
-      have := tk_sepEnd hp.sepWs e (pushTok (some t) a)
+      have := tk_sepEnd hp.sep e (pushTok (some t) a)
       simp only [printSeq, List.append_nil, expectSeq]
       rw [this]
       simp [pushTok]
@@ -164,7 +167,7 @@ theorem roundtrip_tk {l : List (Tok × Str)} (h : ∀ p ∈ l, ItemWF p) (e : Na
         simp only [printSeq]
         intro e0
         exact (printTok_noNul hq.tok).2 (List.append_eq_nil_iff.mp e0).1
-      have := tk_sepMid hp.sepWs hR hRne e (pushTok (some t) a)
+      have := tk_sepMid hp.sep hR hRne e (pushTok (some t) a)
       rw [← List.cons_append, this, ih hl]
       simp [expectSeq, pushTok]
 
